@@ -325,6 +325,18 @@ func init() {
 			// "built programmatically" also means edited: deletions (with and without compaction), replacements
 			// (fresh name, same name, colliding with a later or earlier key) and re-insertions
 			edits := ""
+			if rng.Chance(25) {
+				// built by the constructor from a pair list in which keys repeat (later pairs overwrite in place)
+				var items []ordered.TupleSA
+				for _, k := range keys {
+					items = append(items, ordered.TupleSA{Key: k, Value: "first"})
+				}
+				for k := rng.Intn(4); k > 0; k-- {
+					items = append(items, ordered.TupleSA{Key: keys[rng.Intn(len(keys))], Value: "again"})
+				}
+				om = ordered.MapFromItems(items...)
+				edits = "I"
+			}
 			for e := rng.Intn(6); e > 0 && om.Len() > 1; e-- {
 				var live []string
 				om.Range(func(k string, _ any) error { live = append(live, k); return nil })
